@@ -39,9 +39,8 @@ class Dom:
         n = self.name
         if n == "float":
             return float(x)
-        if n == "int":
-            assert F(x).denominator == 1
-            return int(x)
+        if n == "int":      # integer labels for the step points; bounds / query points may fall between them
+            return int(x) if F(x).denominator == 1 else float(x)
         if n == "td":
             return pd.Timedelta(seconds=float(F(x) * 3600))
         return ORIGINS[n] + pd.Timedelta(seconds=float(F(x) * 3600))
@@ -382,6 +381,85 @@ class Runner:
                 r = fn(coll)
             R[s["r"]] = r
             return self.frame_obs(r)
+        if k == "arrbin":
+            import operator as o
+            arr = sc.StairsArray([R[a] for a in s["as"]])
+            b = s["b"]
+            if "regs" in b:
+                other = sc.StairsArray([R[x] for x in b["regs"]])
+            elif "reg" in b:
+                other = R[b["reg"]]
+            else:
+                other = scalar(b["const"], self.fl["scalar"])
+                if isinstance(other, (np.floating, np.integer)):
+                    other = other.item()
+            f = {"add": o.add, "sub": o.sub, "mul": o.mul, "div": o.truediv, "lt": o.lt, "le": o.le, "gt": o.gt,
+                 "ge": o.ge, "eq": o.eq, "ne": o.ne}[s["op"]]
+            try:
+                res = f(arr, other)
+                if not isinstance(res, sc.StairsArray) or len(res) != len(s["rs"]):
+                    raise TypeError(f"array operator returned {type(res).__name__}")
+                obs = []
+                for r, el in zip(s["rs"], list(res.data)):
+                    R[r] = el
+                    obs.append(self.frame_obs(el))
+            except Exception as exc:
+                # the whole array operation raises as soon as one pair does: check that some pair, applied on its
+                # own, raises the same kind of error; the elements are then not compared
+                pair_err = False
+                for a_, i_ in zip(s["as"], range(len(s["as"]))):
+                    bo = R[b["regs"][i_]] if "regs" in b else other
+                    try:
+                        f(R[a_], bo)
+                    except Exception as exc2:
+                        pair_err = pair_err or type(exc2) is type(exc)
+                obs = [{"t": "skip"} if pair_err else err_obs(exc) for _ in s["rs"]]
+            return {"t": "multi", "obs": obs}
+        if k == "arrtable":
+            coll = [R[r] for r in s["regs"]]
+            cont = self.fl.get("coll", "list")
+            if cont == "dict":
+                coll = {f"k{i}": m for i, m in enumerate(coll)}
+            elif cont == "tuple":
+                coll = tuple(coll)
+            xs = self.xs(s["xs"])
+            if s["kind"] == "sample":
+                df = sc.sample(coll, xs)
+            else:
+                df = sc.limit(coll, xs, side=s["side"])
+            return {"t": "multi", "obs": [{"t": "vals", "vals": [num(v) for v in row]} for row in df.values.tolist()]}
+        if k == "arrcov":
+            coll = [R[r] for r in s["regs"]]
+            kw = {"where": self.where_arg(s)}
+            try:
+                df = (sc.cov if s["kind"] == "cov" else sc.corr)(coll, **kw)
+            except Exception as exc:
+                # the matrix call raises as soon as one pairwise call does: check that some pair raises the same kind
+                # of error on its own; the entries are then not compared
+                pair_err = False
+                for a_ in coll:
+                    for b_ in coll:
+                        try:
+                            getattr(a_, s["kind"])(b_, **kw)
+                        except Exception as exc2:
+                            pair_err = pair_err or type(exc2) is type(exc)
+                n_ = len(coll)
+                cnt = n_ * n_ - (n_ if s["kind"] == "corr" else 0)
+                return {"t": "multi", "obs": [{"t": "skip"} if pair_err else err_obs(exc) for _ in range(cnt)]}
+            m = df.values
+            if not np.allclose(m, m.T, equal_nan=True):
+                return {"t": "multi", "obs": [{"t": "err", "e": "other", "type": "Asymmetric", "msg": "matrix not symmetric"}] * (len(coll) ** 2)}
+            obs = []
+            n = len(coll)
+            for i in range(n):
+                for j in range(n):
+                    if s["kind"] == "corr" and i == j:
+                        continue
+                    c = num(m[i, j])
+                    if s["kind"] == "corr" and c is not None:
+                        c = F(float(c) * abs(float(c)))
+                    obs.append({"t": "val", "val": c})
+            return {"t": "multi", "obs": obs}
         if k == "query":
             return self.query(s)
         raise ValueError(k)
@@ -538,6 +616,9 @@ class Runner:
             before = dict(self.regs)
             try:
                 o = self.step(s)
+                if o.get("t") == "multi":
+                    out.extend(o["obs"])
+                    continue
                 if s["s"] not in ("layer", "read", "query") and s.get("r") in self.regs:
                     new = self.regs[s["r"]]
                     for k, old in before.items():
@@ -545,7 +626,9 @@ class Runner:
                             o = {"t": "err", "e": "other", "type": "Alias", "msg": f"result of {s['s']} is the object in register {k}"}
                 out.append(o)
             except Exception as exc:  # noqa
-                out.append(err_obs(exc))
+                n = len(s["rs"]) if s["s"] == "arrbin" else (len(s["regs"]) if s["s"] == "arrtable" else
+                     (len(s["regs"]) ** 2 - (len(s["regs"]) if s.get("kind") == "corr" else 0) if s["s"] == "arrcov" else 1))
+                out.extend([err_obs(exc)] * n)
         return out
 
 
